@@ -339,7 +339,50 @@ def check_stream_end(rep, rid, core):
     ef_reads = c01.queue_reads(f, 'effects')
     E_ev = [e for _, es in ev_reads for e in es]
     E_ef = [e for _, es in ef_reads for e in es]
-    stalls = [b for b in P if (E_ev and b in f.reachable([0], removed_edges=E_ev)) or (E_ef and b in f.reachable([0], removed_edges=E_ef))]
+    # reads combined through `a.try_recv().map(..).or_else(|_| b.try_recv().map(..))`: the Err / None edge of a test on the combined value
+    # means every queue read in the chain was empty
+    def chain_fields(o, depth=0):
+        out = set()
+        if depth > 6 or o.kind != 'call':
+            return out
+        c_ = o.term
+        if call_matches(c_, ['crossbeam_channel::channel::Receiver::try_recv']):
+            return set(c01.field_of_receiver(f, c_['args'][0]))
+        cn_ = norm(c_.get('callee') or '')
+        if cn_.startswith(('core::result::Result::', 'core::option::Option::')) and last_seg(cn_) in ('map', 'or_else', 'or', 'ok', 'map_err') and c_['args']:
+            for x in origins(f, c_['args'][0]):
+                out |= chain_fields(x, depth + 1)
+            if last_seg(cn_) in ('or_else', 'or'):
+                for a_ in c_['args'][1:]:
+                    for x in origins(f, a_):
+                        if x.kind == 'agg' and x.stmt['rv'].get('ak') == 'closure':
+                            g_ = core.by_exact(x.stmt['rv']['def'])
+                            for b2, t2 in (g_.calls('crossbeam_channel::channel::Receiver::try_recv') if g_ else []):
+                                out |= set(y.lstrip('^') for y in c01.field_of_receiver(g_, t2['args'][0]))
+                        elif x.kind == 'call':
+                            out |= chain_fields(x, depth + 1)
+        return out
+    for sb, st in f.terms('switch'):
+        for o in origins(f, st['a']):
+            if o.kind == 'rvalue' and o.stmt['rv']['k'] == 'discr' and not o.stmt['rv']['a'].get('p'):
+                flds = set()
+                combined = False
+                for x in origins(f, {'l': o.stmt['rv']['a']['l'], 'p': []}):
+                    if x.kind == 'call' and not call_matches(x.term, ['crossbeam_channel::channel::Receiver::try_recv']):
+                        fl_ = chain_fields(x)
+                        if fl_:
+                            combined = True
+                            flds |= fl_
+                if combined:
+                    # empty edge: Err (1) for a Result, None (0) for an Option
+                    ty_ = f.locals[o.stmt['rv']['a']['l']]
+                    empty_v = 1 if ty_.startswith('core::result::Result<') else 0
+                    edge = (sb, next((b2 for v, b2 in st['arms'] if v == empty_v), st['otherwise']))
+                    if 'events' in flds:
+                        E_ev.append(edge)
+                    if 'effects' in flds:
+                        E_ef.append(edge)
+    stalls = [b for b in P if (E_ev and b in f.reachable_ps([0], removed_edges=E_ev)) or (E_ef and b in f.reachable_ps([0], removed_edges=E_ef))]
     rep.expect(rid, bool(E_ev) and bool(E_ef) and not stalls, 'poll_next|pending-only-when-drained',
                'every Pending return lies behind the empty edge of the event queue and of the effect queue',
                'Command::poll_next can return Pending without having found both output queues empty (at %s): outputs stay queued and, unless one '
